@@ -383,10 +383,12 @@ pub fn run(data: &[u8], ctx: &mut Ctx) -> Outcome {
         let victim = &flat[vi].1;
         if let Some(a) = victim.assertions_with_predicate(bc_envelope::known_values::SSKR_SHARE).first().cloned() {
             let obj = a.as_object().unwrap();
-            let damaged = match src.below(3) {
+            let damaged = match src.below(5) {
                 0 => victim.elide_removing_target(&obj),
                 1 => victim.elide_removing_target_with_action(&obj, &ObscureAction::Compress),
-                _ => victim.replace_assertion(a.clone(), Envelope::new_assertion(bc_envelope::known_values::SSKR_SHARE, "not a share")).unwrap_or(victim.clone()),
+                2 => victim.replace_assertion(a.clone(), Envelope::new_assertion(bc_envelope::known_values::SSKR_SHARE, "not a share")).unwrap_or(victim.clone()),
+                // a share object of the right type but truncated to 0-3 bytes
+                k => victim.replace_assertion(a.clone(), Envelope::new_assertion(bc_envelope::known_values::SSKR_SHARE, bc_components::SSKRShare::from_data(vec![7u8; if k == 3 { 1 } else { (vi % 4) as usize }]))).unwrap_or(victim.clone()),
             };
             ctx.class("damaged-share-object");
             for list in [vec![&damaged], { let mut v = all.clone(); v[vi] = &damaged; v }, { let mut v = vec![&damaged]; v.extend(all.iter().enumerate().filter(|(i, _)| *i != vi).map(|(_, x)| *x)); v }] {
